@@ -421,6 +421,12 @@ func (g *Gen) sliceOp(st *State, x *ssa.Slice) {
 		}
 		g.safety("slice", st, fmt.Sprintf("(and (<= 0 %s) (<= %s %s) (<= %s %s))", lo, lo, hi, hi, n), x.Pos())
 		g.setVal(x, fmt.Sprintf("(mkslice %s %s (- %s %s) (- %s %s))", g.term(x.X), lo, hi, lo, n, lo))
+		// anchors for quantifier instantiation: the positions of a small literal ("exists j :: s[j] == k" needs a candidate j)
+		if arr.Len() <= 4 && !isByteLike(arr.Elem()) {
+			for k := int64(0); k < arr.Len(); k++ {
+				g.sc.emit("(assert (anchor (sidx %s %d)))", g.val[x], k)
+			}
+		}
 	case *types.Basic: // string
 		s := g.term(x.X)
 		if hi == "" {
